@@ -45,7 +45,7 @@ def _submit(p, w, kind, items):
     return W.Observer(h, kind)
 
 
-def _mid_task(kind, code, who, lwt, ev, want_lost_seen):
+def _mid_task(kind, code, who, lwt, ev, want_lost_seen, controlled=False):
     """pool of two.  job A = the job under test (kind), whose only part goes to
     worker `who`; job B = an apply job on the other worker.  Both are accepted,
     then worker `who` dies with `code` in the middle of its task."""
@@ -62,6 +62,10 @@ def _mid_task(kind, code, who, lwt, ev, want_lost_seen):
     w.w_take(victim)
     w.w_take(other)
     w.drain_results()                    # both ACKs handled
+    if controlled:
+        # the pool itself had told this worker to leave (what shrink() does to a worker it takes for idle) - the worker was in
+        # fact running the job: "by any signal or exit status"
+        victim._controlled_termination = True
     w.w_exit(victim, code)
     # "the job's lost-worker timeout": what the handle carries (map jobs do not
     # inherit the pool-level setting and always use the 10 s default)
@@ -192,7 +196,7 @@ def h_mid(code: int, who: int, lwt: int, ev: List[int]) -> bool:
     post: _
     """
     try:
-        return _mid_task(_kind(), code, (PART // 4) % 2, lwt, ev, False)
+        return _mid_task(_kind(), code, (PART // 4) % 2, lwt, ev, False, (PART // 8) % 2 == 1)
     except Prune:
         return True
 
@@ -203,7 +207,7 @@ def h_mid_twin(code: int, who: int, lwt: int, ev: List[int]) -> bool:
     post: _
     """
     try:
-        return _mid_task(_kind(), code, (PART // 4) % 2, lwt, ev, True)
+        return _mid_task(_kind(), code, (PART // 4) % 2, lwt, ev, True, (PART // 8) % 2 == 1)
     except Prune:
         return True
 
